@@ -33,7 +33,16 @@ type vpCfgFS struct{ files []*vpCfgFile }
 
 type vpCfgHandle struct{ f *vpCfgFile }
 
-func (h *vpCfgHandle) Stat() (iofs.FileInfo, error) { return nil, os.ErrInvalid }
+type vpCfgInfo struct{ name string }
+
+func (i vpCfgInfo) Name() string        { return i.name }
+func (i vpCfgInfo) Size() int64         { return 1 }
+func (i vpCfgInfo) Mode() iofs.FileMode { return 0o644 }
+func (i vpCfgInfo) ModTime() time.Time  { return time.Time{} }
+func (i vpCfgInfo) IsDir() bool         { return false }
+func (i vpCfgInfo) Sys() any            { return nil }
+
+func (h *vpCfgHandle) Stat() (iofs.FileInfo, error) { return vpCfgInfo{h.f.name}, nil }
 func (h *vpCfgHandle) Read([]byte) (int, error)     { return 0, io.EOF }
 func (h *vpCfgHandle) Close() error                 { return nil }
 
